@@ -18,14 +18,14 @@ CHECKS = {
     "C07": (
         "model_checking",
         "explicit-state exhaustive enumeration of note-data texts (cell grids, format variations, keysound rows, note pairs) decoded by the real NoteData and compared with an independent reader model",
-        "Every grid of up to 6 (quick) / 8 (thorough) cells over 0,1,2,3,M, every row of <=4 cells over all nine note characters, every rows-per-measure shape (singles, pairs, triples over 13 row counts) x 1-3 players x 108 formatting styles, all 8^4 keysound rows, 1..16 columns, and all ordered pairs of 72 notes under all comparison operators are decoded by the real code and compared with an independent reader; exhaustive within these bounds. Scale: rows of 1..16 columns with every cell keysounded (indices of 1..6 digits), measures of 256/384/768 rows.",
+        "Every grid of up to 6 (quick) / 8 (thorough) cells over 0,1,2,3,M, every row of <=4 cells over all nine note characters, every rows-per-measure shape (singles, pairs, triples over 13 row counts) x 1-3 players x 108 formatting styles, all 8^4 keysound rows, 1..16 columns, and all ordered pairs of 72 notes under all comparison operators are decoded by the real code and compared with an independent reader; exhaustive within these bounds. Scale: rows of 1..16 columns with every cell keysounded (indices of 1..6 digits), measures of 256/384/768 rows. A pass paused while another runs; note data beyond 2^20 characters.",
         "Trusted: mc/models/notes.py read_notedata as the reading of 'one note per non-zero cell'; texts are well-formed (no blank line inside a measure, known note characters).",
         "DESIGN.md 5 (C07)",
     ),
     "C08": (
         "model_checking",
         "explicit-state exhaustive construction tree over position-sorted note streams (note by note) through the real NoteData.from_notes, checked in every node against an independent reader and a structure model; decode/re-encode stability on generated texts",
-        "Every stream of up to 3-4 notes over 3 players x 11 beats (tick-aligned, thirds, fifths, sevenths, several measures) x 1-3 columns, all type/keysound variants on 1-2 note streams, 1..16 columns, the empty stream, every pair of 17 beat denominators (triples of 10) in one measure, and decode/re-encode of generated and corpus texts; every note data object is read again (abandoned pass, two iterators) and fed back as generator and as itself; in every node: notes read back identical, column count, canonical structure (player sections, measures, 4 x LCM rows), stability. Scale: fully keysounded rows of 1..16 columns, notes a thousand measures out.",
+        "Every stream of up to 3-4 notes over 3 players x 11 beats (tick-aligned, thirds, fifths, sevenths, several measures) x 1-3 columns, all type/keysound variants on 1-2 note streams, 1..16 columns, the empty stream, every pair of 17 beat denominators (triples of 10) in one measure, and decode/re-encode of generated and corpus texts; every note data object is read again (abandoned pass, two iterators) and fed back as generator and as itself; in every node: notes read back identical, column count, canonical structure (player sections, measures, 4 x LCM rows), stability. Scale: fully keysounded rows of 1..16 columns, notes a thousand measures out. A pass paused while another runs; (thorough) a beat with a denominator above a million.",
         "Trusted: mc/models/notes.py (independent reader, expected_structure). Streams satisfy from_notes' documented preconditions.",
         "DESIGN.md 5 (C08)",
     ),
@@ -39,21 +39,21 @@ CHECKS = {
     "C11": (
         "model_checking",
         "explicit-state exhaustive construction tree over timing-event sets on small beat grids through the real TimingEngine, every state compared with an exact rational timeline model under every EventTag; metamorphic transitions (offset shift, redundant BPM insertion)",
-        "All sets of up to 3 (quick) / 4 (thorough) events (redundant/different BPM change, stop, delay, warp of 1-3 steps) on 4-point coarse and fine (adjacent-tick) grids x 3 offsets, dyadic and decimal value families: time_at at ~40 probe beats x 7 tags within 1e-9 of the exact model, monotone in (beat, tag), bpm_at exact, offset shift and redundant-BPM insertion invariance; corpus timing data. Scale layer: special timelines (3..8 BPM changes with a stop and a delay inside one warp, warps of 8 and 20 beats, queries and events at beats 133..20000, BPMs 1..2000 and with many digits, offsets of an hour).",
+        "All sets of up to 3 (quick) / 4 (thorough) events (redundant/different BPM change, stop, delay, warp of 1-3 steps) on 4-point coarse and fine (adjacent-tick) grids x 3 offsets, dyadic and decimal value families: time_at at ~40 probe beats x 7 tags within 1e-9 of the exact model, monotone in (beat, tag), bpm_at exact, offset shift and redundant-BPM insertion invariance; corpus timing data. Scale layer: special timelines (3..8 BPM changes with a stop and a delay inside one warp, warps of 8 and 20 beats, queries and events at beats 133..20000, BPMs 1..2000 and with many digits, offsets of an hour). The special timelines also under a 6-digit decimal context; half-tick warp lengths; BPMs equal as floats.",
         "Trusted: mc/models/timeline.py as the specification; domain as stated in the property (first BPM at 0, positive values, sorted tick-aligned beats).",
         "DESIGN.md 5 (C11)",
     ),
     "C12": (
         "model_checking",
         "explicit-state exhaustive construction tree over timing-event sets through the real TimingEngine.beat_at at all boundary, in-pause and in-between times under every tag, against sup/inf definitions on the exact rational timeline; independence transitions (redundant BPM changes)",
-        "Same event-set space as C11 plus a shifted grid; asked times = the engine's own time_at of every probe beat and tag, 3-5 times inside every pause, points between event times: round trip on tick-aligned unskipped beats, paused beat inside pauses, WARP/default boundary answers (where float time is exact), half-tick nearness, monotonicity per tag, independence from 1..3 added redundant BPM changes. Scale layer: the special timelines of C11.",
+        "Same event-set space as C11 plus a shifted grid; asked times = the engine's own time_at of every probe beat and tag, 3-5 times inside every pause, points between event times: round trip on tick-aligned unskipped beats, paused beat inside pauses, WARP/default boundary answers (where float time is exact), half-tick nearness, monotonicity per tag, independence from 1..3 added redundant BPM changes. Scale layer: the special timelines of C11. Likewise under a 6-digit decimal context.",
         "Trusted: mc/models/timeline.py (B_default = sup{b: arrive(b)<=t}, B_warp = inf{b: depart(b)>=t}); exact rounding ties and float boundary times are treated leniently as the property allows.",
         "DESIGN.md 5 (C12)",
     ),
     "C13": (
         "model_checking",
         "explicit-state exhaustive construction tree over timing-event sets; hittable() on every probe tick and time_notes over all note types x players x keysounds x grid rows x 3 options through the real code, against the timeline and notes models",
-        "Same event-set space as C11: hittable on every tick around the events equals 'in the warp union and no stop/delay on the beat'; for every timeline with a warp, time_notes of 9-type x 8-row x 3-player texts (keysounded on alternating cells) under the three UnhittableNotes options equals the model's list (order, times, notes unchanged except type for fakes); corpus charts. Scale layer: the special timelines of C11 with a note row on every whole probe beat up to beat 8000.",
+        "Same event-set space as C11: hittable on every tick around the events equals 'in the warp union and no stop/delay on the beat'; for every timeline with a warp, time_notes of 9-type x 8-row x 3-player texts (keysounded on alternating cells) under the three UnhittableNotes options equals the model's list (order, times, notes unchanged except type for fakes); corpus charts. Scale layer: the special timelines of C11 with a note row on every whole probe beat up to beat 8000. Likewise under a 6-digit decimal context.",
         "Trusted: mc/models/timeline.py and mc/models/notes.py.",
         "DESIGN.md 5 (C13)",
     ),
@@ -61,14 +61,14 @@ CHECKS = {
     "C14": (
         "model_checking",
         "exhaustive product enumeration (odometer) over the tick grid, decimal/float lattices, rational pairs x operators x operand types, event lists and whitespace arrangements through the real Beat/BeatValues/TimingData, against Python's Fraction/Decimal arithmetic",
-        "Every tick multiple within +-2000 beats (thorough +-20000 and powers of ten to 1e7) round-trips through its three-decimal text, float and Decimal; every decimal string k/1000, k/10^4, k/10^5 and float n/960, n/1024, n/7 in range snaps to a tick within 1/96; all ordered pairs of 95 rationals under + - * / % divmod in five operand-type combinations, unary operators and constructors are exact and return Beat; event lists, blank strings, 16^n whitespace arrangements, and TimingData attribute sources. Magnitudes: rationals with numerators/denominators of 10^3..10^18, values of 10..29 significant digits.",
+        "Every tick multiple within +-2000 beats (thorough +-20000 and powers of ten to 1e7) round-trips through its three-decimal text, float and Decimal; every decimal string k/1000, k/10^4, k/10^5 and float n/960, n/1024, n/7 in range snaps to a tick within 1/96; all ordered pairs of 95 rationals under + - * / % divmod in five operand-type combinations, unary operators and constructors are exact and return Beat; event lists, blank strings, 16^n whitespace arrangements, and TimingData attribute sources. Magnitudes: rationals with numerators/denominators of 10^3..10^18, values of 10..29 significant digits. Subclass instances of str / Decimal / float.",
         "Trusted: Python fractions/decimal. Exact ties between two ticks may round either way.",
         "DESIGN.md 5 (C14)",
     ),
     "C15": (
         "model_checking",
         "exhaustive product enumeration of the split-timing configuration space (kind x version x chart kind x {absent,empty,non-empty}^11, offsets, DISPLAYBPM spellings) through the real TimingData/displaybpm with source-revealing sentinel values",
-        "Quick: all vectors with <=3 non-absent chart timing properties plus corners; thorough: all 3^11 vectors, for 2 simfile kinds x 7 versions x 3 chart kinds: all five TimingData attributes must come from the one source the rule selects. OFFSET/DISPLAYBPM {absent, empty, value} on both sides x ignore_specified x all DISPLAYBPM spellings of <=3 tokens x BPMS lists: offset default 0, displayed BPM static/range/random or BPMS min/max of the selected source. Magnitudes: BPMS with 100000.001 / 0.001 / 2000, DISPLAYBPM of 29 digits.",
+        "Quick: all vectors with <=3 non-absent chart timing properties plus corners; thorough: all 3^11 vectors, for 2 simfile kinds x 7 versions x 3 chart kinds: all five TimingData attributes must come from the one source the rule selects. OFFSET/DISPLAYBPM {absent, empty, value} on both sides x ignore_specified x all DISPLAYBPM spellings of <=3 tokens x BPMS lists: offset default 0, displayed BPM static/range/random or BPMS min/max of the selected source. Magnitudes: BPMS with 100000.001 / 0.001 / 2000, DISPLAYBPM of 29 digits. Scientific notation in BPMS; a TimingData edited in place before another is built.",
         "Trusted: the rule as stated in the property. Blank-padded DISPLAYBPM spellings are accepted either way; chosen source has a non-empty BPMS for the display clause.",
         "DESIGN.md 5 (C15)",
     ),
@@ -76,14 +76,14 @@ CHECKS = {
     "C01": (
         "model_checking",
         "explicit-state exploration of the real SM serializer/parser: exhaustive value strings in every context, and breadth-first edit histories with state matching (content, order, string identity) in lock-step with a dictionary model; round-trip oracle in every state",
-        "Every string of length <=4 (quick) / <=6 (thorough) over the MSD metacharacter alphabet in 12 contexts (value, ATTACKS, DISPLAYBPM, key, chart fields, note data, extra components), thorough also every BMP code point and awkward pairs; all edit histories of depth <=3/4 over 38 operations from the bare object, the empty simfile, blank() and the corpus file: in every state serialize -> strict parse gives the same items/charts/extra components, same text again, accepted and auto-detected, documented NOTES/ATTACKS parameter structure. Scale layers: a de Bruijn walk (every ordered pair of operations consecutively, ~2000 steps on one live object), scale simfiles (one-line lists of 7..700 entries, each metacharacter at every offset before 4096/8192, 17/130/1100 charts, 400 properties), all 6^6 assignments of kinds of value to the six chart fields.",
+        "Every string of length <=4 (quick) / <=6 (thorough) over the MSD metacharacter alphabet in 12 contexts (value, ATTACKS, DISPLAYBPM, key, chart fields, note data, extra components), thorough also every BMP code point and awkward pairs; all edit histories of depth <=3/4 over 38 operations from the bare object, the empty simfile, blank() and the corpus file: in every state serialize -> strict parse gives the same items/charts/extra components, same text again, accepted and auto-detected, documented NOTES/ATTACKS parameter structure. Scale layers: a de Bruijn walk (every ordered pair of operations consecutively, ~2000 steps on one live object), scale simfiles (one-line lists of 7..700 entries, each metacharacter at every offset before 4096/8192, 17/130/1100 charts, 400 properties), all 6^6 assignments of kinds of value to the six chart fields. Vocabulary layer: ~90 values that mean something to StepMania, Python or a filesystem (old and new difficulty names, attack syntax, numbers in other spellings, entity / escape / format / path look-alikes, key names, Unicode normal forms) in every value and key context.",
         "Trusted: msdparser as tokenizer/escaper (its escaping gaps are detected operationally, must match a listed pattern, are excluded and reported as known findings); mc/models/msd.py.",
         "DESIGN.md 5 (C01)",
     ),
     "C02": (
         "model_checking",
         "explicit-state exploration of the real SSC serializer/parser: exhaustive value strings in SSC contexts, exhaustive chart alphabet (key orderings x NOTES/NOTES2 position x values incl. None, interned strings, equal copies and the same object), breadth-first edit histories with state matching incl. string identity",
-        "Value strings as C01 in 8 SSC contexts; every ordering of <=3/4 chart keys with NOTES or NOTES2 at every position and every value kind (about 10^5..10^6 charts); edit histories of depth <=3/4 over 42 operations from bare, empty, blank and corpus simfiles: reload gives the same properties with note data last, second serialization identical, nothing dropped or renamed by value equality/identity, NOTEDATA..notes parameter structure, SSCChart.from_str(str(chart)) round trip. Scale layers: the de Bruijn walk and the scale simfiles of C01 in SSC form (also chart-level lists, note data beyond 8192 characters).",
+        "Value strings as C01 in 8 SSC contexts; every ordering of <=3/4 chart keys with NOTES or NOTES2 at every position and every value kind (about 10^5..10^6 charts); edit histories of depth <=3/4 over 42 operations from bare, empty, blank and corpus simfiles: reload gives the same properties with note data last, second serialization identical, nothing dropped or renamed by value equality/identity, NOTEDATA..notes parameter structure, SSCChart.from_str(str(chart)) round trip. Scale layers: the de Bruijn walk and the scale simfiles of C01 in SSC form (also chart-level lists, note data beyond 8192 characters). Vocabulary layer as C01, also as VERSION (alone and with a chart that has a DESCRIPTION but no CHARTNAME).",
         "Trusted: msdparser (gaps excluded operationally); mc/models/msd.py. States whose charts do not have exactly one of NOTES/NOTES2 are explored but not judged.",
         "DESIGN.md 5 (C02)",
     ),
@@ -97,7 +97,7 @@ CHECKS = {
     "C04": (
         "model_checking",
         "exhaustive enumeration of texts (as C03) and systematic corpus mutations (every truncation / line deletion on a stride, splices) through the real load -> save -> load -> save cycle under three loaders and both strictness values",
-        "For every text the loader accepts (auto-detected and forced SM/SSC, strict and lenient): str() must not raise, the strict reload has the same items in order and the same charts (SSC note data last), the second serialization is byte-identical and a second cycle is a no-op; corpus: whole files, truncations and deletions at line boundaries (stride 40 quick / every line thorough), splices between all file pairs. Scale layer: the scale texts (long one-line lists, metacharacters around 4096/8192, 1100 charts, 400 properties) x strict x 2 loaders.",
+        "For every text the loader accepts (auto-detected and forced SM/SSC, strict and lenient): str() must not raise, the strict reload has the same items in order and the same charts (SSC note data last), the second serialization is byte-identical and a second cycle is a no-op; corpus: whole files, truncations and deletions at line boundaries (stride 40 quick / every line thorough), splices between all file pairs. Scale layer: the scale texts (long one-line lists, metacharacters around 4096/8192, 1100 charts, 400 properties) x strict x 2 loaders. Vocabulary texts (every token as value, multi-value component, chart field / property, VERSION and key).",
         "Trusted: msdparser (gaps excluded operationally and counted); SSC charts without note data are outside the domain.",
         "DESIGN.md 5 (C04)",
     ),
@@ -105,7 +105,7 @@ CHECKS = {
     "C18": (
         "model_checking",
         "explicit-state breadth-first search to a fixpoint over closed state graphs (all ordered partial assignments of standard/alias/unrelated key x all operations) on real simfile and chart objects in lock-step with a dictionary model; likewise for the SM chart over {values}^6",
-        "For every known property of SMSimfile, SSCSimfile and SSCChart (aliases stops/FREEZES, bgchanges/ANIMATIONS, notes/NOTES2) every reachable model state x every operation (attribute get/set/del, key get/set/del/in on standard, alias and unrelated key, items) is executed on the real object: result or exception class, ordered items, attribute precedence, equality and serialization against an object built directly from the model state, serialization leaving the mapping untouched, and inequality of the same pairs in another insertion order. Because the graph closes, this covers histories of any length over the alphabet. SM chart: all reachable states over {values}^6 under attribute/key/lower-case/unrelated-key operations, setdefault, update, pop, popitem. Scale layers: a transition tour (every transition of the closed graph in one history on one live object), values of 150/1200/9000 characters.",
+        "For every known property of SMSimfile, SSCSimfile and SSCChart (aliases stops/FREEZES, bgchanges/ANIMATIONS, notes/NOTES2) every reachable model state x every operation (attribute get/set/del, key get/set/del/in on standard, alias and unrelated key, items) is executed on the real object: result or exception class, ordered items, attribute precedence, equality and serialization against an object built directly from the model state, serialization leaving the mapping untouched, and inequality of the same pairs in another insertion order. Because the graph closes, this covers histories of any length over the alphabet. SM chart: all reachable states over {values}^6 under attribute/key/lower-case/unrelated-key operations, setdefault, update, pop, popitem. Scale layers: a transition tour (every transition of the closed graph in one history on one live object), values of 150/1200/9000 characters. NOTEDATA as a stored chart key; SM charts differing in one field by case or one character.",
         "Trusted: the dictionary + alias model (mc/drivers/c18.py m_apply). For a case variant of an SM field name 'refused' or 'assigned to the field' are both accepted; clear()/move_to_end() are outside the statement's operation alphabet.",
         "DESIGN.md 5 (C18)",
     ),
@@ -113,42 +113,42 @@ CHECKS = {
     "C05": (
         "model_checking",
         "exhaustive enumeration of byte payloads x tried-encoding lists through the real open functions, and of content class x file-name configuration x encoding list x filesystem x edit script through the real mutate(), each run followed by a whole-filesystem comparison with a bytes/codec model and a no-op second run",
-        "Detection: every 1-byte payload (MemoryFS and native) and 2-byte payloads (all with a high lead byte in thorough) embedded in .sm/.ssc files x 5 tried lists + explicit encoding: reported encoding = first of the list that decodes the whole file, loaded simfile = decoded text, UnicodeDecodeError only when none decodes. mutate: one payload per decodability signature x 2 layouts x {.sm,.ssc} x output x backup {none, other, =input, =output} x 3 encoding configurations x 2 filesystems x edit scripts x output/backup names free or taken by older files x absolute or cwd-relative names (native); multi-byte characters at every offset around buffer sizes 512..8192 (thorough: 256..131072): output/backup content, untouched input and other files, refused clashes, byte-stable no-op re-run. Scale layer: every representative payload repeated 2..1000 times.",
+        "Detection: every 1-byte payload (MemoryFS and native) and 2-byte payloads (all with a high lead byte in thorough) embedded in .sm/.ssc files x 5 tried lists + explicit encoding: reported encoding = first of the list that decodes the whole file, loaded simfile = decoded text, UnicodeDecodeError only when none decodes. mutate: one payload per decodability signature x 2 layouts x {.sm,.ssc} x output x backup {none, other, =input, =output} x 3 encoding configurations x 2 filesystems x edit scripts x output/backup names free or taken by older files x absolute or cwd-relative names (native); multi-byte characters at every offset around buffer sizes 512..8192 (thorough: 256..131072): output/backup content, untouched input and other files, refused clashes, byte-stable no-op re-run. Scale layer: every representative payload repeated 2..1000 times. Bystander files named like temporary files; backup names with % signs.",
         "Trusted: Python codecs; MemoryFS and the OS as stores. Values contain no bare carriage return.",
         "DESIGN.md 5 (C05)",
     ),
     "C06": (
         "fault_enumeration",
         "exhaustive fault enumeration on the real mutate() save path through a call-counting, fault-injecting filesystem seam: every body position x exception class, serialization and encoding faults at several positions, and an injected failure at every numbered open/write/flush/close call of the fault-free run",
-        "For {MemoryFS, native} x {.sm,.ssc} x 4 detected encodings x layout x output name (none, another file, the input's own name, the input's name respelled) x backup x names free or taken by older files: 8 exception classes at every position of every edit script (filesystem unchanged; CancelMutation swallowed, everything else propagates as the same object); unserializable and unencodable simfiles (input bytes intact); a failure at every call index k of the recorded call sequence (input intact unless it had been opened for writing; a requested backup complete before the output is opened; the injected exception reaches the caller). Scale layer: files of 70 KB and 1.1 MB with a reduced fault enumeration.",
+        "For {MemoryFS, native} x {.sm,.ssc} x 4 detected encodings x layout x output name (none, another file, the input's own name, the input's name respelled) x backup x names free or taken by older files: 8 exception classes at every position of every edit script (filesystem unchanged; CancelMutation swallowed, everything else propagates as the same object); unserializable and unencodable simfiles (input bytes intact); a failure at every call index k of the recorded call sequence (input intact unless it had been opened for writing; a requested backup complete before the output is opened; the injected exception reaches the caller). Scale layer: files of 70 KB and 1.1 MB with a reduced fault enumeration. Body exceptions of the classes the library itself handles; errors= passed through to open().",
         "Trusted: the seam only counts and fails calls (mc/fsseam.py); faults at call granularity, not power loss; no atomic replace is claimed once the input has been opened for writing.",
         "DESIGN.md 5 (C06)",
     ),
     "C16": (
         "model_checking",
         "explicit-state construction tree over SM source simfiles (optional-property subsets x timing spellings x chart lists) x simfile/chart templates through the real sm_to_ssc, every state compared with a conversion model and with the library's own timing and note readers",
-        "All subsets of <=3/4 of 15 optional source properties (ANIMATIONS alias, SSC-only keys already present, unknown and key-only keys, empty / blank / key-only values of properties with an SSC default) over OFFSET/BPMS/STOPS x 6 chart lists x 6 simfile templates (none, empty, bare, blank, edited, with a chart) x 6 chart templates (none, empty, blank, extra keys, empty timing keys, NOTES2 spelling), the corpus SM file x 36 template pairs, negative-timing sources: exact key set and values, chart order and fields, TimingData and NoteData equality, source/templates unmodified, no shared mutable objects (also by mutating the result), serialization reloads equal, NotImplementedError for negative BPM/stop. Magnitudes: a BPM of 10^7, a one-line list of 90 BPM changes.",
+        "All subsets of <=3/4 of 15 optional source properties (ANIMATIONS alias, SSC-only keys already present, unknown and key-only keys, empty / blank / key-only values of properties with an SSC default) over OFFSET/BPMS/STOPS x 6 chart lists x 6 simfile templates (none, empty, bare, blank, edited, with a chart) x 6 chart templates (none, empty, blank, extra keys, empty timing keys, NOTES2 spelling), the corpus SM file x 36 template pairs, negative-timing sources: exact key set and values, chart order and fields, TimingData and NoteData equality, source/templates unmodified, no shared mutable objects (also by mutating the result), serialization reloads equal, NotImplementedError for negative BPM/stop. Magnitudes: a BPM of 10^7, a one-line list of 90 BPM changes. Vocabulary values in every source field; a chart template with key look-alikes.",
         "Trusted: mc/models/convert.py; blank templates' content read from the library. Key order of the result is not claimed. FREEZES sources and partial chart templates are known findings.",
         "DESIGN.md 5 (C16)",
     ),
     "C17": (
         "model_checking",
         "exhaustive product enumeration of SSC-only property x value state x behaviour mapping (all 5^5 in thorough), ordered property pairs, templates, corpus files x all 4^5 mappings through the real ssc_to_sm, compared with a policy model; round trip over the C16 source tree",
-        "Every SSC-only property (16 simfile-level, 17 chart-level) x {absent, empty, default, default padded, non-default} x mappings; ordered pairs for the first-offending-property clause; templates; corpus SSC files x 1024 full mappings; ssc_to_sm(sm_to_ssc(sm)) equality on original keys: only the three documented outcomes occur, the exception names the first offending property, results obey the policy, nothing is modified or shared.",
+        "Every SSC-only property (16 simfile-level, 17 chart-level) x {absent, empty, default, default padded, non-default} x mappings; ordered pairs for the first-offending-property clause; templates; corpus SSC files x 1024 full mappings; ssc_to_sm(sm_to_ssc(sm)) equality on original keys: only the three documented outcomes occur, the exception names the first offending property, results obey the policy, nothing is modified or shared. Keys resembling SSC-only names (blanks at the edges, other letter case).",
         "Trusted: property-kind table, default behaviours and default values pinned from the library's tables (mc/models/convert.py). Chart keys the SM chart cannot hold are known findings (bare KeyError).",
         "DESIGN.md 5 (C17)",
     ),
     "C19": (
         "model_checking",
         "exhaustive enumeration of directory trees (subsets of a name alphabet, multisets of pack children) x every listing order offered by a filesystem seam x options, on MemoryFS and the native filesystem, through the real SimfileDirectory / SimfilePack / opendir / openpack, compared with a tree model",
-        "Song directories: every subset of <=3/4 of 10 names (mixed-case extensions, near misses, other files) x all listing orders x ignore_duplicate x trailing slash; packs: every multiset of <=3/4 of 11 child kinds (sm, ssc, both, duplicates, stray text, empty, near-miss only, nested, loose file, loose image, CP932 file) x listing orders x ignore_duplicate x strict x encoding: paths, SSC preference, duplicate error / first listed, FileNotFoundError, exact pack membership, opendir/openpack agreement, loader options reaching every file; directories and packs also named relative to the current directory; one directory / pack object opened along every history of <=3/4 calls over default/strict/lenient (answers equal a fresh object's, new simfile object per call). Scale layer: directories of 130/300 (thorough 1100) entries with the simfile at positions 1, 2, 128..130, 256, 257 and last, alone and in a pack.",
+        "Song directories: every subset of <=3/4 of 10 names (mixed-case extensions, near misses, other files) x all listing orders x ignore_duplicate x trailing slash; packs: every multiset of <=3/4 of 11 child kinds (sm, ssc, both, duplicates, stray text, empty, near-miss only, nested, loose file, loose image, CP932 file) x listing orders x ignore_duplicate x strict x encoding: paths, SSC preference, duplicate error / first listed, FileNotFoundError, exact pack membership, opendir/openpack agreement, loader options reaching every file; directories and packs also named relative to the current directory; one directory / pack object opened along every history of <=3/4 calls over default/strict/lenient (answers equal a fresh object's, new simfile object per call). Scale layer: directories of 130/300 (thorough 1100) entries with the simfile at positions 1, 2, 128..130, 256, 257 and last, alone and in a pack. Side-file names (._a.sm, ~b.ssc) and directories with odd names (~, $HOME, %d, {0} ...), also relative to the current directory.",
         "Trusted: MemoryFS and the OS; the seam only permutes listings (mc/fsseam.py).",
         "DESIGN.md 5 (C19)",
     ),
     "C20": (
         "model_checking",
         "exhaustive enumeration of directory contents (subsets of a 24-name alphabet) x simfile property states x listing orders on MemoryFS and the native filesystem through the real Assets / SimfilePack.banner, compared with a pattern model that accepts any matching entry",
-        "Every subset of <=2/3 names hitting, nearly hitting and missing each documented pattern, simfile given or loaded, all listing orders; per asset kind 9 property states (absent, empty simfile object, empty, exact, other case, missing, sub-directory in other case, wrong-case sub-directory, missing sub-directory) (plus './x' and 'sub/../x' spellings) x subsets of 6 directory extras x directory spellings (plain, '/./', '/../', doubled separator); pack banners inside/beside (every set of <=2 of 15 neighbours incl. look-alike names) x orders x packs named relative to the current directory: answer is the named file (case-insensitive) else a pattern match else None, exists, normalized, stable on re-read; banner by extension priority. Also a missing file with a 256-character name, and two properties on one loader (30 ordered kind pairs x 18 state pairs x both ask orders).",
+        "Every subset of <=2/3 names hitting, nearly hitting and missing each documented pattern, simfile given or loaded, all listing orders; per asset kind 9 property states (absent, empty simfile object, empty, exact, other case, missing, sub-directory in other case, wrong-case sub-directory, missing sub-directory) (plus './x' and 'sub/../x' spellings) x subsets of 6 directory extras x directory spellings (plain, '/./', '/../', doubled separator); pack banners inside/beside (every set of <=2 of 15 neighbours incl. look-alike names) x orders x packs named relative to the current directory: answer is the named file (case-insensitive) else a pattern match else None, exists, normalized, stable on re-read; banner by extension priority. Also a missing file with a 256-character name, and two properties on one loader (30 ordered kind pairs x 18 state pairs x both ask orders). Simfiles whose own names hit a pattern; composed vs decomposed Unicode names.",
         "Trusted: mc/models/assets.py. Which of several matching entries is returned is not claimed; the disc image lookup is not claimed.",
         "DESIGN.md 5 (C20)",
     ),
